@@ -14,6 +14,7 @@ import gen
 import real
 from common import seed, pmap
 
+KNOWN_SOME = "count: match_some_fg exceeds basic matching for residues written with two sugar tokens (glycan.py:recipe_equality compares the first SAC entry / any entry)"
 KNOWN_EVERY = "count: match_all_fg compares molecules while match_some_fg compares recipe tokens (glycan.py:recipe_equality)"
 
 
@@ -81,7 +82,8 @@ def run(rep, tier, driver):
                     queries.append((c, fl))
         cases.append((s, queries, t))
     # residues spelled in two equivalent ways (positional vs positionless modification): functional-group matching modes must stay monotone
-    for s, q in [("Man(a1-4)Glc2NAc", "GlcNAc"), ("Gal(b1-4)GlcNAc6S", "GlcNAc"), ("Neu5Ac(a2-3)Gal", "Neu5Ac"), ("Gal6S(b1-4)Glc", "Gal"), ("Fuc(a1-2)Gal2N", "GalN")]:
+    for s, q in [("Man(a1-4)Glc2NAc", "GlcNAc"), ("Gal(b1-4)GlcNAc6S", "GlcNAc"), ("Neu5Ac(a2-3)Gal", "Neu5Ac"), ("Gal6S(b1-4)Glc", "Gal"), ("Fuc(a1-2)Gal2N", "GalN"),
+                 ("Gal(b1-4)ManHep", "Hep"), ("Glc(a1-3)LDManHep", "Hep")]:
         t = gen.T(s.split(")")[-1], [({"anomer": s.split("(")[1][0], "cpos": int(s.split("(")[1][1]), "ppos": int(s.split("-")[1][0])}, gen.T(s.split("(")[0]))])
         queries = [(q, dict(m, **{w: True})) for w in ("match_nodes", "match_leaves", "match_root") for m in modes]
         cases.append((s, queries, t))
@@ -156,7 +158,9 @@ def run(rep, tier, driver):
                 ev = table.get((q, json.dumps({where: True, "match_all_fg": True}, sort_keys=True)))
                 if all(isinstance(x, int) for x in (b, so, ev)) and basic:
                     if so > b:
-                        rep.violation("input", {"iupac": s, "query": q, "where": where}, {"basic": b, "some": so, "every": ev}, "some <= basic", key="mono-some:%s:%s" % (s, q))
+                        two = any(len([1 for lit in SACS if lit and lit in nm and nm.index(lit) >= 0]) >= 2 for nm in names)
+                        rep.violation("input", {"iupac": s, "query": q, "where": where}, {"basic": b, "some": so, "every": ev}, "some <= basic",
+                                      key=KNOWN_SOME if (q in ("Hep", "Hex", "Oct", "Pen") or two) else "mono-some:%s:%s" % (s, q))
                     if ev > so:
                         rep.violation("input", {"iupac": s, "query": q, "where": where}, {"basic": b, "some": so, "every": ev}, "every <= some <= basic", key=KNOWN_EVERY)
             if q == s and fl.get("match_nodes") and isinstance(c, int) and c < 1:
